@@ -1,6 +1,7 @@
 package interp
 
 import (
+	"encoding/hex"
 	"fmt"
 	"go/types"
 	"math"
@@ -318,6 +319,25 @@ func registerNatives(ex *Explorer) {
 	I["math.Pow10"] = func(in *Interp, fn *ssa.Function, a []Value) Value {
 		n := int(in.Concretize(a[0].(*sym.Term)))
 		return FloatVal{F: math.Pow10(n), Known: true}
+	}
+
+	I["encoding/hex.DecodeString"] = func(in *Interp, fn *ssa.Function, a []Value) Value {
+		b, err := hex.DecodeString(str(a[0]))
+		if err != nil {
+			return TupleVal{in.bytesToSlice(b, types.Typ[types.Uint8]), in.newError(err.Error())}
+		}
+		return TupleVal{in.bytesToSlice(b, types.Typ[types.Uint8]), IfaceVal{}}
+	}
+	I["encoding/hex.EncodeToString"] = func(in *Interp, fn *ssa.Function, a []Value) Value {
+		sv := a[0].(SliceVal)
+		if sv.Arr == nil {
+			return ""
+		}
+		b, ok := in.sliceBytes(sv)
+		if !ok {
+			in.fail("unsupported", "hex.EncodeToString of symbolic bytes")
+		}
+		return hex.EncodeToString(b)
 	}
 
 	// ---------- sort ----------
